@@ -6,6 +6,8 @@ import Purr.Props.C11
 import Purr.Props.C09
 import Purr.Lemmas.BuildErrL
 import Purr.Lemmas.JoinPairL
+import Purr.Lemmas.DenoteL
+import Purr.Lemmas.JoinReasonL
 namespace Purr.C10
 open Purr Purr.Spec
 
@@ -129,6 +131,34 @@ theorem build_join_error_is_real (es : List Event) (a c : Nat) (h : build? es = 
       cases h5
       exact ⟨pre, bk, r, post, s1, h1, h2, h3, hd⟩
 
+/-- THE REPORTED PAIR AND THE REASON, READ OFF THE HISTORY (no builder state in the statement): if building fails with
+    `Join(a, c)`, then the history has a ring-closure digit with some number `r` and bond kind `bk`, written while atom
+    `a` was the head (`Spec.replay`: the path stack after the events before it), at a moment when the pairing rule "a
+    digit closes the nearest preceding open digit of the same number" (`Spec.scan`) had digit `k` open for `r` — and
+    digit `k` was written, with bond kind `bk0`, while atom `c` was the head.  So `(a, c)` are the two atoms of one ring
+    closure of the written text.  And that closure cannot be made, for one of the three reasons the property allows:
+    `a = c` (a self-bond); or the events before it already give `c` a bond to `a` (`Spec.contribH`: a second bond); or
+    the kinds written at the two digits are irreconcilable. -/
+theorem build_join_error_is_a_written_closure (es : List Event) (a c : Nat) (h : build? es = some (.error (.join a c))) :
+    ∃ pre bk r post k bk0, es = pre ++ .join bk r :: post ∧
+      (Spec.replay [] 0 pre).1.head? = some a ∧
+      (Spec.scan 0 (Spec.annotate [] 0 pre) ([], [])).2.lookup r = some k ∧
+      Spec.joinAt (Spec.annotate [] 0 pre) k = some (bk0, c) ∧
+      (a = c ∨
+       (∃ j b, Spec.contribH (Spec.annotate [] 0 pre) (Spec.scan 0 (Spec.annotate [] 0 pre) ([], [])).1 c j = some (.bond ⟨b, a⟩)) ∨
+       reconcile bk0 bk = none) := by
+  obtain ⟨pre, bk, r, post, s1, hsplit, hpre, herr, hdef⟩ := build_join_error_is_real es a c h
+  have hinv : DInv pre s1 := by simpa using DInv.run pre DInv.init hpre herr
+  obtain ⟨k, bk0, h1, h2, h3, h4⟩ := joinDefect_history hinv hdef
+  exact ⟨pre, bk, r, post, k, bk0, hsplit, h1, h2, h3, h4⟩
+
+/-- the three reasons are not vacuous: `C11` (self-bond), `C1C1` (second bond), `C=1CC#1` (irreconcilable) fail with `Join` -/
+example : build? [.root .star, .join .elided ⟨1, by decide⟩, .join .elided ⟨1, by decide⟩] = some (.error (.join 0 0)) := rfl
+example : build? [.root .star, .join .elided ⟨1, by decide⟩, .extend .elided .star, .join .elided ⟨1, by decide⟩]
+    = some (.error (.join 1 0)) := rfl
+example : build? [.root .star, .join .double ⟨1, by decide⟩, .extend .elided .star, .extend .elided .star, .join .triple ⟨1, by decide⟩]
+    = some (.error (.join 2 0)) := rfl
+
 /-- AN `Rnum(i)` ERROR IS REAL: the `i`-th ring-closure digit of the history exists, no later digit carries its number,
     and that number has been written an odd number of times — under the pairing rule "a digit closes the nearest
     preceding open digit of the same number, otherwise it opens" it is an opening that is never answered -/
@@ -218,6 +248,63 @@ theorem build_succeeds_iff (es : List Event) (hc : Conformant es) :
     obtain ⟨g, hg⟩ := buildNodes_total hall
     exact ⟨g, by unfold BState.build; rw [he]; simp [hg]⟩
 
+/-- BUILDING FAILS EXACTLY WHEN …, READ OFF THE HISTORY (no builder state in the statement).  `HistDefect pre bk r a c`
+    says, about the written events `pre` alone: `a` is the head atom after `pre`; the pairing rule has a digit open for
+    `r`, written at head `c` with some kind `bk0`; and `a = c`, or `pre` already gives `c` a bond to `a`, or `bk0` and `bk`
+    are irreconcilable.  For every conformant history, `build` returns a graph if and only if no ring-closure digit of
+    the history meets such a defect and every ring number is written an even number of times. -/
+theorem build_succeeds_iff_written (es : List Event) (hc : Conformant es) :
+    (∃ g, build? es = some (.ok g)) ↔
+      ((∀ pre bk r post a c, es = pre ++ .join bk r :: post → ¬ HistDefect pre bk r a c) ∧
+       ∀ r, countR es r % 2 = 0) := by
+  constructor
+  · intro hok
+    obtain ⟨hno, heven⟩ := (build_succeeds_iff es hc).mp hok
+    refine ⟨?_, heven⟩
+    intro pre bk r post a c hsplit hd
+    obtain ⟨g, hg⟩ := hok
+    unfold build? at hg
+    cases hr : brun .init es with
+    | none => rw [hr] at hg; cases hg
+    | some s =>
+      rw [hr] at hg
+      simp only [Option.map_some, Option.some.injEq] at hg
+      have he : s.errors = [] := by
+        unfold BState.build at hg
+        cases he : s.errors with
+        | nil => rfl
+        | cons e l => rw [he] at hg; cases hg
+      rw [hsplit, brun_append] at hr
+      cases hp : brun .init pre with
+      | none => rw [hp] at hr; cases hr
+      | some s1 =>
+        rw [hp] at hr
+        simp only [Option.bind_some] at hr
+        obtain ⟨l, hl⟩ := brun_errors hr
+        have he1 : s1.errors = [] := by
+          rw [he] at hl
+          cases h1 : s1.errors with
+          | nil => rfl
+          | cons x xs => rw [h1] at hl; cases hl
+        have hinv : DInv pre s1 := by simpa using DInv.run pre DInv.init hp he1
+        exact hno pre (.join bk r) post s1 hsplit hp a c ⟨bk, r, rfl, history_joinDefect hinv hd⟩
+  · rintro ⟨hno, heven⟩
+    have hsome := build_no_panic es hc
+    obtain ⟨x, hx⟩ := Option.isSome_iff_exists.mp hsome
+    cases x with
+    | ok g => exact ⟨g, hx⟩
+    | error e =>
+      exfalso
+      cases e with
+      | join a c =>
+        obtain ⟨pre, bk, r, post, s1, hsplit, hpre, herr, hdef⟩ := build_join_error_is_real es a c hx
+        have hinv : DInv pre s1 := by simpa using DInv.run pre DInv.init hpre herr
+        exact hno pre bk r post a c hsplit (joinDefect_history hinv hdef)
+      | rnum i =>
+        obtain ⟨b, r, _, _, hodd⟩ := build_rnum_error_is_real es i hx
+        have := heven r
+        omega
+
 /-- THE TRAVERSAL'S JOINS COME IN MATCHED PAIRS (C08, stated on the event stream itself): for every well-formed adjacency
     list, in the events the traversal hands to a follower every ring number is written an even number of times — each
     opening is answered by exactly one closing — and no closing digit meets a defect: the two ends are never the same
@@ -295,6 +382,61 @@ theorem walk_join_pairs_are_bonds (g : Graph) (hw : WellFormed g) (es : List (Ev
         apply Nat.lt_of_not_le; intro hge
         rw [List.getElem?_eq_none_iff.mpr hge] at htat; cases htat
       exact ⟨ord[a], bd.tid, atomX, List.getElem_mem ha, hbdord, hxa, hbdeq.2, hgx, bd, hbdX, rfl⟩
+
+/-- the two walk theorems above, with the builder state eliminated from the statement: in the events of a traversal of
+    a well-formed adjacency list, every ring number is written an even number of times and no ring-closure digit meets
+    a written-history defect (`HistDefect`) -/
+theorem walk_joins_balanced_written (g : Graph) (hw : WellFormed g) (es : List (Event × Nat)) (ord : List Nat)
+    (h : walkRecL g = some (es, ord)) :
+    (∀ pre bk r post a c, es.map (·.1) = pre ++ .join bk r :: post → ¬ HistDefect pre bk r a c) ∧
+    ∀ r, countR (es.map (·.1)) r % 2 = 0 := by
+  obtain ⟨g', hb, _⟩ := rtc g hw es ord h
+  have hconf : Conformant (es.map (·.1)) := conformant_of_walkRec g es ord h
+  exact (build_succeeds_iff_written _ hconf).mp ⟨g', hb⟩
+
+/-- … and each closing digit's pair, read off the written events: if the closing digit is written at head `a`
+    (`Spec.replay`) while the pairing scan has digit `k` open for its number, and digit `k` was written at head `c`, then
+    the atoms visited `a`-th and `c`-th are bonded in the graph -/
+theorem walk_join_pairs_are_bonds_written (g : Graph) (hw : WellFormed g) (es : List (Event × Nat)) (ord : List Nat)
+    (h : walkRecL g = some (es, ord)) (pre post : List Event) (bk bk0 : BondKind) (r : Rnum) (a c k : Nat)
+    (hsplit : es.map (·.1) = pre ++ .join bk r :: post)
+    (hhead : (Spec.replay [] 0 pre).1.head? = some a)
+    (hopen : (Spec.scan 0 (Spec.annotate [] 0 pre) ([], [])).2.lookup r = some k)
+    (hk : Spec.joinAt (Spec.annotate [] 0 pre) k = some (bk0, c)) :
+    ∃ x y atomX, x ∈ ord ∧ y ∈ ord ∧ pos ord x = a ∧ pos ord y = c ∧ g[x]? = some atomX ∧ ∃ bd ∈ atomX.bonds, bd.tid = y := by
+  obtain ⟨g', hb, _⟩ := rtc g hw es ord h
+  have hb0 := hb
+  unfold build? at hb
+  cases hrun : brun .init (es.map (·.1)) with
+  | none => rw [hrun] at hb; cases hb
+  | some sF =>
+    rw [hrun] at hb
+    simp only [Option.map_some, Option.some.injEq] at hb
+    have heF : sF.errors = [] := by
+      unfold BState.build at hb
+      cases he : sF.errors with
+      | nil => rfl
+      | cons e l => rw [he] at hb; cases hb
+    rw [hsplit, brun_append] at hrun
+    cases hp : brun .init pre with
+    | none => rw [hp] at hrun; cases hrun
+    | some s1 =>
+      rw [hp] at hrun
+      simp only [Option.bind_some] at hrun
+      obtain ⟨l, hl⟩ := brun_errors hrun
+      have he1 : s1.errors = [] := by
+        rw [heF] at hl
+        cases h1 : s1.errors with
+        | nil => rfl
+        | cons x xs => rw [h1] at hl; cases hl
+      have hinv : DInv pre s1 := by simpa using DInv.run pre DInv.init hp he1
+      have h1 : s1.stack.head? = some a := by rw [hinv.stk]; exact hhead
+      have h2 : s1.opens.lookup r = some c := by
+        rw [hinv.opn r]
+        show (((Spec.scan 0 (Spec.annotate [] 0 pre) ([], [])).2.lookup r).bind
+          (fun k => (Spec.joinAt (Spec.annotate [] 0 pre) k).map (·.2))) = some c
+        rw [hopen]; simp [hk]
+      exact walk_join_pairs_are_bonds g hw es ord h pre post bk r s1 a c hsplit hp h1 h2
 
 /-! non-vacuity: `C/1CC/1` (irreconcilable kinds) reports `Join(2, 0)`, and in `C1C` digit 0 is unmatched; the theorems
     above apply to both -/
